@@ -634,7 +634,8 @@ def r4_static_condensation(ctx):
     ctx.check(ok, "_solve_eig: the eigenproblem is solved for the reduced stiffness and the reduced mass", eig[3])
     vec = F.fn("eigvec", kred, mred) if ok and is_rat(kred) and is_rat(mred) else None
     cl = S.cells(vret)
-    ok = vec is not None and eq(rows(S, vret, nzm), vec) and eq(rows(S, vret, zm), -(Kzx / Kzz) * vec) and len(cl) == 2
+    created = S.buf(vret) is not None and S.buf(vret).init is not None
+    ok = vec is not None and eq(rows(S, vret, nzm), vec) and eq(rows(S, vret, zm), -(Kzx / Kzz) * vec) and len(cl) == 2 and created
     _chk(ctx, S, ok, "_solve_eig: expanded eigenvectors satisfy the equilibrium of the massless DOF, Kzz v_z + Kzx v_x = 0 (rows with mass = v, massless rows = "
                      "-Kzz^-1 Kzx v): the eigen-based rigid-body modes are rigid on those DOF too", fn,
          None if ok else {"v": _r(vret), "stores": [(_r(i, 120), _r(v, 200)) for i, v, _ in cl]}, arrays=[vret])
@@ -655,7 +656,7 @@ def r4_static_condensation(ctx):
     zero_rows = rows(S, vret, f"(~{NZ})")
     zeroed = (is_rat(zero_rows) and zero_rows.is_zero() and len(cl) == 2) or \
              (zero_rows is None and b is not None and is_rat(b.init) and b.init.is_zero() and len(cl) == 1)
-    ok = vec is not None and eq(rows(S, vret, NZ), vec) and zeroed
+    ok = vec is not None and eq(rows(S, vret, NZ), vec) and zeroed and b is not None and b.init is not None
     _chk(ctx, S, ok, "_solve_eig: eigenvectors get zero rows at the removed DOF and the computed rows elsewhere", fn,
          None if ok else {"v": _r(vret), "stores": [(_r(i, 120), _r(v, 200)) for i, v, _ in cl]}, arrays=[vret])
     # ---- both: null columns trimmed first, then the massless DOF of what is left condensed
@@ -1035,25 +1036,34 @@ def r6_coordchk(ctx):
 
 
 RULES = [
-    ("C06-R1", r1_cbtf, 24),
-    ("C06-R2", r2_conversion, 16),
+    ("C06-R1", r1_cbtf, 30),
+    ("C06-R2", r2_conversion, 17),
     ("C06-R3", r3_reorder, 9),
     ("C06-R4", r4_static_condensation, 8),
-    ("C06-R5", r5_cbcheck_quantities, 22),
+    ("C06-R5", r5_cbcheck_quantities, 24),
     ("C06-R6", r6_coordchk, 8),
 ]
 LEVEL = "other"
-EXPLANATION = ("Static: cbtf uses the boundary/interior partitions consistently (index-space typing), returns the enforced boundary acceleration itself, loads the "
-               "interior equations with the coupling terms of the full equations, solves them with no rigid-body set; unit-conversion constants are exact "
-               "reciprocals and applied on the documented sides and rows; cbreorder permutes symmetrically; _solve_eig's static condensation of massless DOF "
-               "(Schur complement, reduced mass, expansion satisfying the massless equilibrium) and its removal of null rows/columns.")
+EXPLANATION = ("Static, decided on values (the functions are evaluated on symbols; arrays are found through the field names of the returned namespace, report "
+               "quantities through the label they are written under, helpers are followed): cbtf returns the enforced boundary acceleration itself, loads the interior "
+               "equations with the coupling terms of the full equations, solves them with no rigid-body set, forms the boundary force from the boundary rows, with every "
+               "subscript in its own index space, also for the all-boundary model; unit-conversion constants are exact reciprocals and applied on the documented sides "
+               "and rows; cbreorder permutes symmetrically; _solve_eig's static condensation of massless DOF (Schur complement, reduced mass, expansion satisfying the "
+               "massless equilibrium) and its removal of null rows/columns, alone and combined; cbcheck's report and namespace use each rigid-body set with the matrix "
+               "partition of its own size under its own label; _cbcoordchk's stiffness-based modes (identity at the reference DOF, -Koo^-1 Kor elsewhere, zero rows at "
+               "null DOF, per-DOF renumbering of the reference DOF after trimming).")
 MANIFEST = {
-    "text": "Thin partial claim decided statically: (R1) cbtf partition typing, enforced boundary acceleration, interior right-hand side, boundary force rows, rb=[]; "
-            "(R2) m2e/e2m constants reciprocal to 2^-51, cbconvert C/D diagonals per block and their inverses, uset_convert scales exactly the length rows; "
-            "(R3) cbreorder's symmetric permutation; (R4) cbcheck's free-free eigensolution helper _solve_eig: reduced stiffness = Kxx - Kxz Kzz^-1 Kzx, reduced mass = Mxx, "
-            "the eigenproblem solved for exactly those, expanded massless rows = -Kzz^-1 Kzx v, null rows/columns removed by one mask and re-inserted as zeros; "
-            "(R5) cbcheck builds the mass, grounding and effective-mass quantities of the stiffness / geometry / eigensolution rigid-body sets from the matrix "
-            "partition of each set's own size and puts each into the report / namespace slot of its own label, rbe normalised at the reference DOF. Not decided: cbcheck's rigid-body, effective-mass and grounding numbers, cgmass, numerical accuracy of cbtf.",
+    "text": "Thin partial claim decided statically: (R1) cbtf: enforced boundary acceleration, boundary / interior displacement, interior right-hand side and its 0 Hz guard, "
+            "boundary force rows, velocity, interior solver partitions and rb=[], index-space typing of every subscript of the result, the all-boundary model, the solver cache; "
+            "(R2) m2e/e2m constants reciprocal to 2^-51, cbconvert row / column diagonals per block and their inverses, uset_convert scales exactly the length rows and the "
+            "reference location; (R3) cbreorder's symmetric permutation for all option combinations; (R4) cbcheck's free-free eigensolution helper _solve_eig: reduced stiffness = "
+            "Kxx - Kxz Kzz^-1 Kzx, reduced mass = Mxx, the eigenproblem solved for exactly those, expanded massless rows = -Kzz^-1 Kzx v, null rows/columns removed by one mask "
+            "and re-inserted as zeros, both reductions combined; (R5) cbcheck builds the mass, grounding and effective-mass quantities of the stiffness / geometry / "
+            "eigensolution rigid-body sets from the matrix partition of each set's own size and writes each under its own label / namespace field, rbe normalised at the "
+            "reference DOF; (R6) _cbcoordchk: identity at the reference DOF, -Koo^-1 Kor at the other boundary DOF, null boundary DOF trimmed and re-inserted as zero rows, "
+            "reference DOF renumbered one by one after trimming, modal rows zero. Not decided: cbcheck's rigid-body, effective-mass and grounding numbers, cgmass, numerical "
+            "accuracy of cbtf.",
     "note": "Trusted: CPython ast; verifier/e2_formula.py, verifier/c06_sem.py; the USET row layout documented in n2p.addgrid (row 1 location, row 2 ids, row 3 origin, rows 4-6 T).",
-    "technique": "symbolic evaluation on values (arrays as objects, namespaces by field name, helpers followed, regimes as facts about values) + index-space typing of the evaluated subscripts",
+    "technique": "symbolic evaluation on values (arrays as objects, namespaces by field name, helpers followed, regimes as facts about values) + index-space typing of the "
+                 "evaluated subscripts",
 }
